@@ -160,5 +160,18 @@ func lenBucket(n int) string {
 }
 
 func Run(c *hx.Ctx) {
-	runBolt(c)
+	only := ""
+	for _, a := range c.Args {
+		if strings.HasPrefix(a, "only=") {
+			only = strings.TrimPrefix(a, "only=")
+		}
+	}
+	for _, p := range []struct {
+		name string
+		run  func(*hx.Ctx)
+	}{{"bolt", runBolt}, {"dubbo", runDubbo}, {"thrift", runThrift}, {"tars", runTars}} {
+		if only == "" || only == p.name {
+			p.run(c)
+		}
+	}
 }
